@@ -884,7 +884,7 @@ def hash_case(rng):
 def generate(rng, tier):
     quick = tier == 'quick'
     cases = []
-    n_cmp = 180 if quick else 1800
+    n_cmp = 150 if quick else 1800
     streams = ['single'] * 5 + ['cross'] * 3 + ['equal'] + ['collide']
     for _ in range(n_cmp):
         cases.append(cmp_case(rng, tier, rng.choice(streams), pattern=rng.random() < 0.35))
@@ -892,9 +892,9 @@ def generate(rng, tier):
         cases.append(history_case(rng, tier, pattern=rng.random() < 0.6))
     for _ in range(40 if quick else 400):
         cases.append(mining_case(rng, tier))
-    for i in range(90 if quick else 700):
+    for i in range(80 if quick else 700):
         cases.append(routes_case(rng, tier, pattern=rng.random() < 0.5, with_rf=(i % (30 if quick else 12) == 0)))
-    for _ in range(40 if quick else 400):
+    for _ in range(30 if quick else 400):
         cases.append(fromobj_case(rng, tier, pattern=False))
     for _ in range(20 if quick else 200):
         cases.append(fromobj_case(rng, tier, pattern=True))
